@@ -20,4 +20,14 @@ CLAIMS = {
         "note": "Trusted: Lean kernel (axiom: propext); hand-written 60-line model of tracing-enabled/src/lib.rs tied to the code by exhaustive schedules of length 3 (quick) / 4 (thorough) on two real threads plus random longer ones on 2-3 threads; the hardware memory model and TLS semantics are assumed.",
         "technique": "Lean 4 invariant-by-induction over operation histories + exhaustive small-schedule correspondence on real threads",
     },
+    "C18": {
+        "text": "Kernel-checked theorems for all 2^64 words (and pairs): extensionality, membership characterisation of every constructor and operator (from_pos/file/rank, with, cleared, or/and/xor/not/diff), the four shifts against the no-wrap set definition, flip_ranks, count = cardinality, any/none/all/some, pop = remove-minimum, the pop loop = ascending member list with exact size hint, nth = skip n for both the portable and the PDEP implementation (including n >= 64), FromIterator = union. 36 theorems, no bound on the word.",
+        "note": "Trusted: Lean kernel (axioms propext, Classical.choice, Quot.sound); the hand-written model of chess-bitboard (Model/Basic.lean) is tied to the code by structured + random differential streams on two CPU-feature builds; the intrinsics tzcnt/popcnt/bswap/pdep are modelled. Defect found and fixed: nth(n >= 64) (known_findings.jsonl).",
+        "technique": "Lean 4 bit-level extensional proofs over BitVec 64 (induction on fuel for tz/pop/pdep loops) + differential correspondence",
+    },
+    "C19": {
+        "text": "Kernel-checked theorems: square/file/rank/neighbour/flip consistency for all 64 squares; parse(print x) = x for every square, file, rank, promotion letter and non-promotion move; the accepted language of every parser characterised for every byte (256 cases each by kernel evaluation) and every byte string (case analysis on length): files a-h/A-H, ranks 1-8, twelve piece letters, Pos = file x rank, ChessMove = exactly the 4-byte and 5-byte '-' forms and never a promotion; the Range<u8>-backed iterators refine a two-ended list iterator for every operation sequence (induction).",
+        "note": "Trusted: Lean kernel (axioms propext, Classical.choice, Quot.sound); hand-written model (Model/Text.lean, Sq functions in Model/Basic.lean) tied to the code by exhaustive streams over the finite domains; Range<u8> is modelled.",
+        "technique": "Lean 4: decide +kernel over Fin 256 / Fin 64, list case analysis, refinement by induction over operation sequences + exhaustive differential",
+    },
 }
